@@ -477,6 +477,57 @@ func c02Echo(c *Ctx) {
 	sf := c.fn("trzszTransfer.sendFileData")
 	chk := callsIn(sf, idIs(tT+"checkInteger"))
 	c.check(len(chk) == 1, "sendFileData/chunk-echo", c.pos(sf.Pos()), "v1 sender echo-checks each chunk length", "v1 sender no longer echo-checks chunk lengths")
+	// universal forms: after a chunk was sent, no next chunk and no success without its echo check; after NUM / SIZE was sent,
+	// no success without its echo check; after an ack was read, no next ack and no exit before the length comparison
+	isChk := func(in ssa.Instruction) bool {
+		ci, ok := in.(ssa.CallInstruction)
+		return ok && calleeID(ci.Common()) == tT+"checkInteger"
+	}
+	for _, sd := range callsIn(sf, idIs(tT+"sendData")) {
+		sdI := sd.(ssa.Instruction)
+		hit, path := reachAvoid(sdI, func(in ssa.Instruction) bool { return in == sdI || isNilErrReturn(in) }, isChk)
+		c.check(hit == nil, "sendFileData/every-chunk-echo-checked", c.ipos(sdI), "each chunk sent is echo-checked before the next one or success", "a chunk can be sent without its echo being checked (a lost or altered chunk goes unnoticed until the digest, or not at all)", c.pathStr(path)...)
+	}
+	for _, nm := range []struct{ fn, typ string }{{"trzszTransfer.sendFileNum", "NUM"}, {"trzszTransfer.sendFileSize", "SIZE"}} {
+		f := c.fn(nm.fn)
+		for _, snd := range callsWithConstArg(f, tT+"sendInteger", 1, nm.typ) {
+			hit, path := reachAvoid(snd, c.maySucceed, isChk)
+			c.check(hit == nil, nm.fn+"/always-echo-checked", c.ipos(snd), "after sending "+nm.typ+" the step succeeds only after the echo check", nm.typ+" can be sent and the step succeed without the echo check", c.pathStr(path)...)
+		}
+	}
+	for _, rcv := range callsIn(ra, idIs(tT+"pipelineRecvCurrentAck")) {
+		call := rcv.(*ssa.Call)
+		ev := errorValueOf(call)
+		isLenIf := func(in ssa.Instruction) bool {
+			i, ok := in.(*ssa.If)
+			if !ok {
+				return false
+			}
+			op, x, y, okC := cmpFact(normFact(fact{V: i.Cond, Pol: true}))
+			if !okC || (op != token.NEQ && op != token.EQL) {
+				return false
+			}
+			for _, pr := range [][2]ssa.Value{{x, y}, {y, x}} {
+				if isFieldLoad("length")(pr[0]) {
+					if c2, idx := callOf(pr[1]); c2 == call && idx == 0 {
+						return true
+					}
+				}
+			}
+			return false
+		}
+		hit, path := reachFromE(call.Block(), instrIndex(call)+1, func(in ssa.Instruction) bool {
+			if isReturn(in) {
+				return true
+			}
+			u, ok := in.(*ssa.UnOp)
+			return ok && u.Op == token.ARROW
+		}, isLenIf, func(from, to *ssa.BasicBlock) bool {
+			_, nonNil := factNil(edgeFactsTo(from, to), ev)
+			return nonNil
+		})
+		c.check(hit == nil, "pipelineRecvAck/length-compared-for-every-ack", c.ipos(call), "every ack read has its length compared before the next ack is taken or the stage ends", "an ack can be consumed without its length being compared with the length sent", c.pathStr(path)...)
+	}
 }
 
 func c02Framing(c *Ctx) {
@@ -1079,6 +1130,17 @@ func c02V1Stream(c *Ctx) {
 				good = isChunk(args[len(args)-1]) && domI(sc, calls[0].(ssa.Instruction))
 			}
 			c.check(good, fname+"/chunk->"+shortID(id), c.pos(f.Pos()), "the chunk of this iteration is what goes to "+shortID(id), "what goes to "+shortID(id)+" is not exactly the chunk read/received in this iteration")
+			if good {
+				// and on every path: no further chunk is fetched and no success is returned without this sink having had the chunk
+				// (a sink made conditional — dry run, skip offset — while the count and the other sink stay unconditional)
+				sink := calls[0].(ssa.Instruction)
+				emptyEdge := func(from, to *ssa.BasicBlock) bool {
+					// the sender's source may deliver nothing (n == 0 with an error handled elsewhere): nothing to sink then
+					return s.source != tT+"recvData" && factZero(edgeFactsTo(from, to), isLen)
+				}
+				hit, path := reachFromE(sc.Block(), instrIndex(sc)+1, func(in ssa.Instruction) bool { return in == ssa.Instruction(sc) || isNilErrReturn(in) }, func(in ssa.Instruction) bool { return in == sink }, emptyEdge)
+				c.check(hit == nil, fname+"/every-chunk->"+shortID(id), c.ipos(sc), "every chunk goes to "+shortID(id)+" before the next one is fetched or success is returned", "a chunk can be counted / acknowledged without going to "+shortID(id)+": the file and the digest no longer cover the same bytes", c.pathStr(path)...)
+			}
 		}
 		for id, idx := range s.lenArgs {
 			for _, ci := range callsIn(f, idIs(id)) {
